@@ -154,9 +154,12 @@ class C09Engine(GenEngineBase):
                                            ["expand", "r0"], ["simplify", "r0"], ["print", "r0", dbg, "cmp"]]}
             if raw:
                 case["history"][2:] = [["print", "r0", dbg, "cmp", "raw"]]
+            elif (r.get("params") or {}).get("__pipeline__") == "user":
+                # the request IS "print, rewrite with a user modifier, print again": the first print is part of it
+                case["history"].insert(2, ["print", "r0", 0, "bg", "raw"])
             res = run_child(case, 0)
             outs = res["outputs"]
-            return k, (outs[0]["text"] if outs else None)
+            return k, (outs[-1]["text"] if outs else None)
 
         with ThreadPoolExecutor(max_workers=os.cpu_count() or 4) as tp:
             ref = dict(tp.map(one, reqs))
